@@ -28,8 +28,6 @@ def parse_kwlookup(h_text, g_text):
     body, last = m.group(1), m.group(2)
     if not last:
         raise GenError("hash does not add the last character")
-    toks = re.findall(r"default:|case\s+(\d+):|hval \+= asso_values\[\(unsigned char\)str\[(\d+)\]\];|(break;)|/\*FALLTHROUGH\*/|(\S+)",
-                      body)
     labels = [int(x) for x in re.findall(r"case\s+(\d+):", body)]
     if not labels:
         raise GenError("no case labels")
